@@ -24,6 +24,8 @@ import DsdVerif.DriverReaderFns
 import DsdVerif.DriverSetters
 import DsdVerif.DriverComplexS3
 import DsdVerif.DriverReadPil
+import DsdVerif.DriverDunders
+import DsdVerif.DriverMembers
 import DsdVerif.DriverDomain
 import DsdVerif.DriverLegacyInit
 import DsdVerif.Model.Dlc
@@ -647,7 +649,7 @@ def stepD (d : DState) (line : String) : DState × String :=
       | none => (d, "bad-op")
     else
     match (((DriverKernel.stepKernel line).orElse (fun _ => DriverIdent.stepIdent line)).orElse (fun _ => DriverIdent2.stepIdent2 line)).orElse
-        (fun _ => ((DriverSingleton.stepSingleton line).orElse (fun _ => DriverUnits.stepUnits line)).orElse (fun _ => ((DriverSetObjects.stepSetObjects line).orElse (fun _ => DriverComplexS2.stepComplexS2 line)).orElse (fun _ => (DriverReaderFns.stepReaderFns line).orElse (fun _ => (DriverSetters.stepSetters line).orElse (fun _ => (DriverComplexS3.stepComplexS3 line).orElse (fun _ => DriverReadPil.stepReadPil line)))))) with
+        (fun _ => ((DriverSingleton.stepSingleton line).orElse (fun _ => DriverUnits.stepUnits line)).orElse (fun _ => ((DriverSetObjects.stepSetObjects line).orElse (fun _ => DriverComplexS2.stepComplexS2 line)).orElse (fun _ => (DriverReaderFns.stepReaderFns line).orElse (fun _ => (DriverSetters.stepSetters line).orElse (fun _ => (DriverComplexS3.stepComplexS3 line).orElse (fun _ => ((DriverReadPil.stepReadPil line).orElse (fun _ => DriverDunders.stepDunders line)).orElse (fun _ => DriverMembers.stepMembers line))))))) with
     | some out => (d, out)
     | none =>
       match DriverLegacyInit.stepLegacyInit d.lr line with
